@@ -47,7 +47,7 @@ def option_sets(tier):
     return sets
 
 
-def check_spec(spec: NetSpec, label, st: Stats, tier, palette_seed):
+def check_spec(spec: NetSpec, label, st: Stats, tier, palette_seed, light=False):
     problems = []  # (sig, msg, extra)
 
     def bad(sig, msg, **extra):
@@ -87,8 +87,8 @@ def check_spec(spec: NetSpec, label, st: Stats, tier, palette_seed):
 
     # 2. NumPy with user arrays --------------------------------------------------
     d = 1
-    for shape in ("1d", "0d"):
-        for P in (P0, P1):
+    for shape in (("1d",) if light else ("1d", "0d")):
+        for P in ((P0,) if light else (P0, P1)):
             for vlabel, val in finite_vectors(spec, d if (shape == "1d" and P is P0) else 0):
                 st.inc("executions")
                 st.inc("transitions")
@@ -101,8 +101,8 @@ def check_spec(spec: NetSpec, label, st: Stats, tier, palette_seed):
                     break
                 check_np_result("numpy-user", nxt, raw, built, val, P, shape)
     # 3. NumPy with the engine's own variables -------------------------------------
-    for vt in ("fill", "rand"):
-        for P in (P0, P1):
+    for vt in (("fill",) if light else ("fill", "rand")):
+        for P in ((P1,) if light else (P0, P1)):
             st.inc("executions")
             st.inc("transitions")
             try:
@@ -125,8 +125,8 @@ def check_spec(spec: NetSpec, label, st: Stats, tier, palette_seed):
                         phase="numpy-own", vt=vt, P=P)
     # 4. CasADi --------------------------------------------------------------------
     vecs = [v for _, v in finite_vectors(spec, 1 if tier == "quick" else 1)]
-    for sym in ("SX", "MX"):
-        for P in ((P0, P1) if sym == "SX" else (P0,)):
+    for sym in (("SX",) if light else ("SX", "MX")):
+        for P in ((P0, P1) if (sym == "SX" and not light) else (P0,)):
             st.inc("executions")
             st.inc("transitions")
             try:
@@ -143,7 +143,7 @@ def check_spec(spec: NetSpec, label, st: Stats, tier, palette_seed):
                 if s1 is None or tuple(s1.shape) != tuple(s0.shape):
                     bad("C07/shape", f"{sym}: next {var} of {key} has shape {None if s1 is None else s1.shape}, "
                         f"state {s0.shape}", phase="casadi", sym=sym, P=P)
-            for compact, more_out in itertools.product((0, 1, 2), (False, True)):
+            for compact, more_out in ([(0, False), (2, True)] if light else itertools.product((0, 1, 2), (False, True))):
                 st.inc("transitions")
                 try:
                     kw = dict(P) if more_out else {}
@@ -198,7 +198,7 @@ def check_spec(spec: NetSpec, label, st: Stats, tier, palette_seed):
                         compact=compact, more_out=more_out)
     # 5. positivity options -----------------------------------------------------------
     base = valgen.base_vector(spec, 0)
-    for opts in option_sets(tier)[1:]:
+    for opts in (option_sets(tier)[-1:] if light else option_sets(tier)[1:]):
         st.inc("executions", 2)
         st.inc("transitions", 3)
         try:
@@ -207,7 +207,7 @@ def check_spec(spec: NetSpec, label, st: Stats, tier, palette_seed):
         except Exception as e:  # noqa: BLE001
             bad(f"C07/numpy-opts/exception/{exc_site(e)}/{type(e).__name__}", f"NumPy step with {opts}: {exc_text(e)}",
                 phase="numpy-opts", opts=opts)
-        for sym in ("SX", "MX"):
+        for sym in (("MX",) if light else ("SX", "MX")):
             try:
                 F, built, eng = cs_compile(spec, sym, P0, opts=opts, compact=0)
                 if F.nnz_in() != sum(n for _, _, n, _ in spec.variables()):
@@ -227,7 +227,7 @@ def worker(item):
     for label, spec in specs:
         st.inc("states")
         st.add_to("shapes", (spec.n, tuple((l.u, l.v) for l in spec.links)))
-        problems = check_spec(spec, label, st, tier, seed)
+        problems = check_spec(spec, label, st, tier, seed, light=(tier == "quick" and label.startswith("dev:")))
         st.outcome((len(problems) == 0, spec.n, len(spec.links)))
         if len(st.samples) < 1 and len(spec.links) >= 3 and spec.origins:
             st.sample({"config": label, "spec": spec.describe()})
@@ -239,15 +239,15 @@ def worker(item):
 def spec_list(tier, seed):
     pal = seed % 3
     if tier == "quick":
-        nm, c = (3, 3), 1
+        specs = [(label, s) for _, label, s in all_specs(3, 3, 1, pal)]
+        bounds = {"shapes": {"max_nodes": 3, "max_links": 3}, "config_deviation_bound": 1, "palette": pal,
+                  "note": "base and uniform configurations get the full engine/level/option matrix, single-element deviations "
+                          "a lighter one (NumPy 1-d arrays, SX at compact 0 and 2, MX with all options)"}
     else:
-        nm, c = (3, 4), 1
-    specs = [(label, s) for _, label, s in all_specs(nm[0], nm[1], c, pal)]
-    bounds = {"shapes": {"max_nodes": nm[0], "max_links": nm[1]}, "config_deviation_bound": c, "palette": pal}
-    if tier != "quick":
-        extra = [(label, s) for _, label, s in all_specs(4, 4, 0, pal) if s.n == 4]
-        specs += extra
-        bounds["extra"] = "all 4-node shapes with <= 4 links at base + uniform configurations"
+        specs = [(label, s) for _, label, s in all_specs(3, 4, 1, pal)]
+        specs += [(label, s) for _, label, s in all_specs(4, 4, 0, pal) if s.n == 4]
+        bounds = {"shapes": "(3,4) c<=1 and all 4-node shapes with <= 4 links at base + uniform configurations; full matrix",
+                  "config_deviation_bound": 1, "palette": pal}
     specs += [(f"harness:{k}", s) for k, s in harness_specs(pal).items()]
     return specs, bounds
 
